@@ -2,14 +2,14 @@ CONSTANTS
  Confs <- MCConfs
  FixWaitErr = FALSE
  Reduce = FALSE
- MCShapes = {"img", "dup", "schema1", "inline", "empty", "ext", "bentry", "dtag"}
+ MCShapes = {"img", "schema1", "inline", "empty", "ext"}
  MCPairs = {"tworeg", "samereg", "dir2dir"}
  MCOpts <- MCOptsDefault
  MCFeats <- MCFeatsDefault
  MCInit = "corners"
  MCTag0 = {"none", "stale"}
  MCByDigest = {FALSE}
- MCTgtByDigest = {FALSE}
+ MCTgtByDigest = {FALSE, TRUE}
  MaxFaults = 0
  AllowCancel = FALSE
  AllowCrash = FALSE
